@@ -690,10 +690,11 @@ pub fn run(tier: Tier) -> Report {
     rep.extra("position_identity_mismatches_logged_not_judged", json!(results.iter().map(|r| r.3).sum::<u64>()));
 
     one_step_sweep(&rep, tier);
+    long_range_sweep(&rep, tier);
 
     rep.set_rule(
         "BFS to fixpoint over the reader's exact state (bytes pulled, buffer length, bit offset, grown?, and the ring buffer's physical layout: capacity and first-slice length) for every source; every operation of the alphabet applied in every state, every step compared with a bit-vector model, a drain probe at every new state; \
-         plus a one-step sweep of all two-byte sources x offsets x widths x types; non-trivial transition = transaction/union/look-ahead/grow, or any step ending off a byte boundary",
+         plus a one-step sweep of all two-byte sources x offsets x widths x types; plus a long-range sweep (one skip of 2^k + d bits, k = 3..25 (thorough 28), d = -9..9, from bit offsets 0, 3 and 8 of a multi-megabyte source, then a 13-bit read, a byte read and the exact reader state; and skips beyond the end of the source up to u32::MAX); non-trivial transition = transaction/union/look-ahead/grow, or any step ending off a byte boundary",
     );
     rep.sample(json!({"source": "00 80 a5", "history": ["read_bits::<u32>(1)", "commit", "with_transaction{read 17 bits; fail}", "read_u8"]}));
     rep.sample(json!({"source": "ff 80 00 40 12", "history": ["skip_bits(7)", "recognize_start_code(false) -> Some(2)"]}));
@@ -781,7 +782,97 @@ fn one_step_sweep(rep: &Report, tier: Tier) {
     rep.extra("one_step_sweep_operations", json!(n));
 }
 
+/// byte `i` of the long pseudo-random source
+fn long_byte(i: usize) -> u8 {
+    let x = (i as u64).wrapping_mul(0x9E37_79B9_7F4A_7C15);
+    (x >> 29) as u8 ^ (x >> 53) as u8
+}
+fn long_bits(pos: usize, n: usize) -> u64 {
+    (0..n).fold(0u64, |a, j| {
+        let p = pos + j;
+        (a << 1) | ((long_byte(p / 8) >> (7 - p % 8)) & 1) as u64
+    })
+}
+
+/// One case of the long-range sweep; `Err` describes the first disagreement with the model.
+fn long_case(data: &[u8], pre: u32, n: u32, variant: usize) -> Result<(), String> {
+    let total = data.len() * 8;
+    let mut rd = H263Reader::from_source(data);
+    catch(|| -> Result<(), String> {
+        rd.skip_bits(pre).map_err(|e| format!("skip_bits({pre}) failed: {e:?}"))?;
+        let target = pre as usize + n as usize;
+        let r = rd.skip_bits(n);
+        if target > total {
+            if !matches!(&r, Err(e) if e.is_eof_error()) {
+                return Err(format!("skip_bits({n}) past the end of a {total}-bit source returned {r:?}"));
+            }
+            // the failed skip must not have moved the position
+            let got = rd.read_bits::<u32>(13).map_err(|e| format!("read after the failed skip: {e:?}"))? as u64;
+            let exp = long_bits(pre as usize, 13);
+            return if got == exp { Ok(()) } else { Err(format!("after the failed skip the next 13 bits are {got:#x}, the source has {exp:#x} at bit {pre}")) };
+        }
+        r.map_err(|e| format!("skip_bits({n}) from bit {pre} of a {total}-bit source failed: {e:?}"))?;
+        let mut pos = target;
+        let orders: [[usize; 4]; 4] = [[13, 8, 1, 32], [8, 13, 32, 1], [32, 1, 8, 13], [1, 7, 16, 8]];
+        for w in orders[variant % 4] {
+            if pos + w > total {
+                break;
+            }
+            let got = if w == 8 && variant != 3 { rd.read_u8().map(|v| v as u64) } else { rd.read_bits::<u32>(w as u32).map(|v| v as u64) }.map_err(|e| format!("{w}-bit read at bit {pos} after skip_bits({n}): {e:?}"))?;
+            let exp = long_bits(pos, w);
+            if got != exp {
+                return Err(format!("{w}-bit read at bit {pos} after skip_bits({n}) returned {got:#x}, the source has {exp:#x}"));
+            }
+            pos += w;
+        }
+        let (buffered, bitpos) = rd.verif_state();
+        if bitpos != pos || buffered * 8 < pos {
+            return Err(format!("reader state after skip_bits({n}) and reads: bit position {bitpos}, {buffered} bytes buffered; model position {pos}"));
+        }
+        Ok(())
+    })
+    .unwrap_or_else(|pm| Err(format!("panic {pm}")))
+}
+
+/// Scale: single skips around every power of two, on a source large enough to satisfy them.
+fn long_range_sweep(rep: &Report, tier: Tier) {
+    let kmax = if tier.thorough() { 28 } else { 25 };
+    let data: Vec<u8> = (0..(1usize << (kmax - 3)) + 64).into_par_iter().map(long_byte).collect();
+    let mut cases: Vec<(u32, u32, usize)> = vec![];
+    for k in 3..=kmax {
+        for d in -9i64..=9 {
+            for pre in [0u32, 3, 8] {
+                for v in 0..4 {
+                    cases.push((pre, ((1i64 << k) + d) as u32, v));
+                }
+            }
+        }
+    }
+    // beyond the end of this source and near the limits of the argument type
+    for n in [(data.len() * 8) as u32, (data.len() * 8 + 1) as u32, 1 << 30, (1 << 31) - 1, 1 << 31, (1 << 31) + 1, u32::MAX - 8, u32::MAX - 7, u32::MAX - 1, u32::MAX] {
+        for pre in [0u32, 3, 8] {
+            cases.push((pre, n, 0));
+        }
+    }
+    cases.par_iter().for_each(|&(pre, n, v)| {
+        if let Err(e) = long_case(&data, pre, n, v) {
+            let class = if e.contains("panic") { panic_sig(e.split("panic ").nth(1).unwrap_or(&e)) } else { "C14/long-skip".to_string() };
+            rep.violation(&class, format!("long source ({} bytes): skip_bits({pre}), skip_bits({n}): {e}", data.len()), json!({"kind": "reader-long", "source_bytes": data.len(), "pre": pre, "skip": n, "variant": v, "error": e}));
+        }
+    });
+    rep.add_transitions(cases.len() as u64);
+    rep.add_states(cases.len() as u64);
+    rep.extra("long_range_cases", json!(cases.len()));
+}
+
 pub fn replay(case: &serde_json::Value) {
+    if case["kind"] == "reader-long" {
+        let n = case["source_bytes"].as_u64().unwrap_or(0) as usize;
+        let data: Vec<u8> = (0..n).map(long_byte).collect();
+        let (pre, skip) = (case["pre"].as_u64().unwrap_or(0) as u32, case["skip"].as_u64().unwrap_or(0) as u32);
+        println!("long source of {n} bytes (byte i = long_byte(i)): skip_bits({pre}), skip_bits({skip}) -> {:?}", long_case(&data, pre, skip, case["variant"].as_u64().unwrap_or(0) as usize));
+        return;
+    }
     let data = crate::bits::unhex(case["source"].as_str().unwrap_or(""));
     let avail = case["initially_available"].as_u64().map(|v| v as usize).unwrap_or(data.len());
     let Some(idx) = case["op_indices"].as_array() else {
